@@ -9,6 +9,7 @@ import PtaProofs.Lemmas.Semantics
 import PtaProofs.Lemmas.LayerTag
 import PtaProofs.Lemmas.LayerDetect
 import PtaProofs.Lemmas.LayerConsistent
+import PtaProofs.Lemmas.LayerQueries
 namespace Pta
 open PtaSpec
 
@@ -92,10 +93,11 @@ structure LCtx (a : Arch) (ls : Layers) (r : LRuleSpec) (m : LayerMap) (S O : Li
   tagSub : ∀ n, tag n = some r.subject ↔ inLayer (ls.get r.subject) n = true
   tagObj : r.anything = false → ∀ on ∈ r.objects, ∀ n, tag n = some on ↔ inLayer (ls.get on) n = true
   hasObj : r.anything = false → ∀ on ∈ r.objects, ∃ e ∈ m, e.1 = on
-  memS : ∀ x, x ∈ S ↔ x ∈ ls.get r.subject
+  /-- the queried subject modules generate the subject layer (they need not be all of its listed modules: the `any layer`
+      aliases query the listed modules without those that are sub modules of other listed modules) -/
+  inS : ∀ n, inLayer S n = inLayer (ls.get r.subject) n
   memO : ∀ x, x ∈ O ↔ if r.anything = true then x ∈ S else ∃ on ∈ r.objects, x ∈ ls.get on
   nodes : ∀ x ∈ S ++ O, x ∈ a.nodes
-  unrel : ∀ x ∈ S ++ O, ∀ y ∈ S ++ O, x = y ∨ related x y = false
   sne : S ≠ []
   one : O ≠ []
   objNe : r.anything = false → ∀ on ∈ r.objects, ls.get on ≠ []
@@ -107,32 +109,11 @@ section core
 variable {a : Arch} {g : PGraph Str} {ls : Layers} {r : LRuleSpec} {m : LayerMap} {S O : List Name}
   {tag : Name → Option Str}
 
-theorem LCtx.ruleCtx (c : LCtx a ls r m S O tag) : RuleCtx a (coreRule r S O) := by
-  have hmem : ∀ f, f ∈ (coreRule r S O).subjects ++ (coreRule r S O).effObjects ↔ ∃ x ∈ S ++ O, f = .named x := by
-    intro f
-    simp only [coreRule, RuleSpec.effObjects, Bool.false_eq_true, if_false, ← List.map_append, List.mem_map]
-    constructor
-    · rintro ⟨x, hx, rfl⟩; exact ⟨x, hx, rfl⟩
-    · rintro ⟨x, hx, rfl⟩; exact ⟨x, hx, rfl⟩
-  constructor
-  · intro f hf f' hf'
-    obtain ⟨x, hx, rfl⟩ := (hmem f).1 hf
-    obtain ⟨y, hy, rfl⟩ := (hmem f').1 hf'
-    rcases c.unrel x hx y hy with rfl | h
-    · exact .inl rfl
-    · exact .inr h
-  · intro f hf
-    obtain ⟨x, hx, rfl⟩ := (hmem f).1 hf
-    exact c.nodes x hx
-
 theorem LCtx.tagS_node (c : LCtx a ls r m S O tag) (n : Name) (hn : n ∈ a.nodes) : tagS m (render n) = tag n :=
   tagS_of_eq (c.tagOk n hn)
 
 theorem LCtx.tagOkS (c : LCtx a ls r m S O tag) (n : Name) (hn : n ∈ a.nodes) : TagOk m (render n) :=
   tagOk_of_eq (c.tagOk n hn)
-
-theorem LCtx.inS (c : LCtx a ls r m S O tag) (n : Name) : inLayer S n = inLayer (ls.get r.subject) n :=
-  inLayer_congr c.memS n
 
 theorem nearE_mem (hw : ArchWF a) (dir : Bool) (e : Name × Name) (he : e ∈ a.imports) : nearE dir e ∈ a.nodes := by
   cases dir
@@ -229,14 +210,13 @@ theorem realisedP_E_nonempty (c : LCtx a ls r m S O tag) (hw : ArchWF a) (hany :
     obtain ⟨on, hon, hyon⟩ := (hmemO y).1 hy
     obtain ⟨him, hnear, hfar⟩ := (mem_edges_named a _ x y e').1 he'
     refine ⟨on, hon, (isEmpty_false_iff_exists _).2 ⟨e', (mem_access a _ _ _ e').2 ⟨him, ?_, ?_⟩⟩⟩
-    · exact (inLayer_iff _ _).2 ⟨x, (c.memS x).1 hx, (desc_iff _ _).1 hnear⟩
+    · rw [← c.inS]; exact (inLayer_iff _ _).2 ⟨x, hx, (desc_iff _ _).1 hnear⟩
     · exact (inLayer_iff _ _).2 ⟨y, hyon, (desc_iff _ _).1 hfar⟩
   · rintro ⟨on, hon, hne⟩
     obtain ⟨e', he'⟩ := (isEmpty_false_iff_exists _).1 hne
     obtain ⟨him, hnear, hfar⟩ := (mem_access a _ _ _ e').1 he'
-    obtain ⟨x, hx, hxn⟩ := (inLayer_iff _ _).1 hnear
+    obtain ⟨x, hxS, hxn⟩ := (inLayer_iff _ _).1 (by rw [c.inS]; exact hnear)
     obtain ⟨y, hy, hyn⟩ := (inLayer_iff _ _).1 hfar
-    have hxS : x ∈ S := (c.memS x).2 hx
     have hyO : y ∈ O := (hmemO y).2 ⟨on, hon, hy⟩
     obtain ⟨kd, hkd, _, hrep⟩ := hE.2 (.named x) ((mem_core_subjects _).2 ⟨x, hxS, rfl⟩) (.named y)
       ((mem_core_objects _).2 ⟨y, hyO, rfl⟩)
@@ -274,9 +254,8 @@ theorem abstractP_nonempty_iff (c : LCtx a ls r m S O tag) (hany : r.anything = 
     apply List.eq_nil_iff_forall_not_mem.2
     intro e' he'
     obtain ⟨him, hnear, hfar⟩ := (mem_access a _ _ _ e').1 he'
-    obtain ⟨x, hx, hxn⟩ := (inLayer_iff _ _).1 hnear
+    obtain ⟨x, hxS, hxn⟩ := (inLayer_iff _ _).1 (by rw [c.inS]; exact hnear)
     obtain ⟨y, hy, hyn⟩ := (inLayer_iff _ _).1 hfar
-    have hxS : x ∈ S := (c.memS x).2 hx
     have hyO : y ∈ O := (hmemO y).2 ⟨on0, hon0, hy⟩
     obtain ⟨kd, hkd, h1, hrep⟩ := hE.2 (.named x) ((mem_core_subjects _).2 ⟨x, hxS, rfl⟩) (.named y)
       ((mem_core_objects _).2 ⟨y, hyO, rfl⟩)
@@ -307,7 +286,7 @@ theorem abstractP_nonempty_iff (c : LCtx a ls r m S O tag) (hany : r.anything = 
       obtain ⟨e', he', _, _⟩ := (hrep p.1 p.2).1 hp
       obtain ⟨him, hnear, hfar⟩ := (mem_edges_named a _ x y e').1 he'
       have : e' ∈ access a r.importDir (ls.get r.subject) (ls.get on') :=
-        (mem_access a _ _ _ e').2 ⟨him, (inLayer_iff _ _).2 ⟨x, (c.memS x).1 hx, (desc_iff _ _).1 hnear⟩,
+        (mem_access a _ _ _ e').2 ⟨him, by rw [← c.inS]; exact (inLayer_iff _ _).2 ⟨x, hx, (desc_iff _ _).1 hnear⟩,
           (inLayer_iff _ _).2 ⟨y, hyon', (desc_iff _ _).1 hfar⟩⟩
       rw [List.isEmpty_iff] at hemp
       rw [hemp] at this; cases this
@@ -329,8 +308,8 @@ theorem realisedP_O_nonempty (c : LCtx a ls r m S O tag) (hw : ArchWF a)
     obtain ⟨e', he', h1, h2⟩ := (hrep p.1 p.2).1 hp
     obtain ⟨him, hnear, hfarx, hfarO⟩ := (mem_others_named a r.importDir x O e').1 he'
     rw [h1, h2, tags_ne_iff c hw r.importDir e' him] at hne
-    have hnearL : inLayer (ls.get r.subject) (nearE r.importDir e') = true :=
-      (inLayer_iff _ _).2 ⟨x, (c.memS x).1 hx, (desc_iff _ _).1 hnear⟩
+    have hnearL : inLayer (ls.get r.subject) (nearE r.importDir e') = true := by
+      rw [← c.inS]; exact (inLayer_iff _ _).2 ⟨x, hx, (desc_iff _ _).1 hnear⟩
     rw [(c.tagSub _).2 hnearL] at hne
     refine ⟨e', (mem_otherAccess a _ _ _ e').2 ⟨him, hnearL, ?_, ?_⟩⟩
     · cases hh : inLayer (ls.get r.subject) (farE r.importDir e')
@@ -348,16 +327,17 @@ theorem realisedP_O_nonempty (c : LCtx a ls r m S O tag) (hw : ArchWF a)
       · simp [hany] at ho'
   · rintro ⟨e', he'⟩
     obtain ⟨him, hnear, hfarS, hfarO⟩ := (mem_otherAccess a _ _ _ e').1 he'
-    obtain ⟨x, hx, hxn⟩ := (inLayer_iff _ _).1 hnear
-    have hxS : x ∈ S := (c.memS x).2 hx
+    obtain ⟨x, hxS, hxn⟩ := (inLayer_iff _ _).1 (by rw [c.inS]; exact hnear)
+    have hx := hxS
     obtain ⟨kd, hkd, _, hrep⟩ := hO.2 (.named x) ((mem_core_subjects _).2 ⟨x, hxS, rfl⟩)
     rw [core_effObjects] at hrep
     have hrep : Rep kd.2 (others a r.importDir (.named x) (O.map .named)) := hrep
-    have hnotS : ∀ z ∈ ls.get r.subject, desc z (farE r.importDir e') = false := by
+    have hfarS' : inLayer S (farE r.importDir e') = false := by rw [c.inS]; exact hfarS
+    have hnotS : ∀ z ∈ S, desc z (farE r.importDir e') = false := by
       intro z hz
       cases hd : desc z (farE r.importDir e')
       · rfl
-      · rw [(inLayer_iff _ _).2 ⟨z, hz, (desc_iff _ _).1 hd⟩] at hfarS; cases hfarS
+      · rw [(inLayer_iff _ _).2 ⟨z, hz, (desc_iff _ _).1 hd⟩] at hfarS'; cases hfarS'
     have he'' : e' ∈ others a r.importDir (.named x) (O.map .named) := by
       refine (mem_others_named a _ x O e').2 ⟨him, (desc_iff _ _).2 hxn, hnotS x hx, ?_⟩
       intro y hy
@@ -369,7 +349,7 @@ theorem realisedP_O_nonempty (c : LCtx a ls r m S O tag) (hw : ArchWF a)
         · have := hfarO (ls.get on) (List.mem_map.2 ⟨on, hon, rfl⟩)
           rw [(inLayer_iff _ _).2 ⟨y, hyon, (desc_iff _ _).1 hd⟩] at this; cases this
       · simp only [hany, if_true] at hmemO
-        exact hnotS y ((c.memS y).1 ((hmemO y).1 hy))
+        exact hnotS y ((hmemO y).1 hy)
     refine ⟨kd, hkd, (render e'.1, render e'.2), (hrep _ _).2 ⟨e', he'', rfl, rfl⟩, ?_⟩
     rw [tags_ne_iff c hw r.importDir e' him, (c.tagSub _).2 hnear]
     intro h
@@ -453,7 +433,19 @@ theorem matchTail_core (c : LCtx a ls r m S O tag) (hw : ArchWF a) (hg : GraphOf
       let V := detectP m (behL r) r.importDir expl other objsM
       matchTail g m (behL r) r.importDir ((S.map SFilter.named).map compileFilter) ((O.map SFilter.named).map compileFilter) =
         if V.any then .fail (reportItemsP m r.importDir V) else .pass := by
-  obtain ⟨e, o, hE, hO, hq⟩ := runQueries_compile hw hg (coreRule r S O) c.ruleCtx
+  obtain ⟨e, o, hE, hO, hq⟩ := runQueries_compile_named hw hg (coreRule r S O)
+    (fun f hf => by
+      obtain ⟨x, hx, rfl⟩ := (mem_core_subjects f).1 hf
+      exact c.nodes x (List.mem_append_left _ hx))
+    (fun f hf => by
+      obtain ⟨x, hx, rfl⟩ := (mem_core_objects f).1 hf
+      exact c.nodes x (List.mem_append_right _ hx))
+    (fun f hf => by
+      obtain ⟨x, _, rfl⟩ := (mem_core_subjects f).1 hf
+      rfl)
+    (fun f hf => by
+      obtain ⟨x, _, rfl⟩ := (mem_core_objects f).1 hf
+      rfl)
   rw [beh_coreRule, core_effObjects] at hq
   refine ⟨e, o, hE, hO, ?_⟩
   have hq' : runQueries g (behL r) r.importDir ((S.map SFilter.named).map compileFilter)
